@@ -148,11 +148,14 @@ CHECKS['C18'] = dict(
           'exception other than the formula-syntax error (every KeyError/IndexError/endless-loop possibility of the '
           'Python path is an explicit escape result, shown unreachable by a stack invariant); dichotomy; lex_progress '
           '(each tokeniser iteration consumes a character: the termination argument); operator_table_complete and '
-          'filter_order on the generated tables; malformed_rejected and numeric_literals (instances). The model is '
+          'filter_order on the generated tables; missing_left_operand_rejected (in EVERY state that expects an operand an '
+          'operator that can only be binary, or %, ends parsing with the syntax error whatever follows); '
+          'malformed_rejected and numeric_literals (instances). The model is '
           'compared with Parser().ast (accept/reject and tree) on token soups, random printable strings, single-edit '
           'mutations and constructed malformed classes; on ALL of these strings (also outside the model alphabet) the '
           'implementation itself must return or raise FormulaError within 10 s, reject the malformed classes and '
-          'accept numeric literals with their value.'),
+          'accept numeric literals with their value; an oracle that does not use the parser model rejects every text '
+          'in which a binary-only operator or % stands where no operand has ended.'),
     design='DESIGN.md §3 C18',
     note=COMMON_NOTE + 'The `regex` engine and the reference regular expressions are modelled for the lexeme alphabet '
          'only; termination of the Python loop is observed by time-out, the theorem is about the model.',
@@ -301,7 +304,7 @@ CHECKS['C11'] = dict(
 CHECKS['C12'] = dict(
     text=('Lean 4 reference definitions (XL.Model.Fn) of the listed functions written from the Excel documentation: logical (IF, IFS, '
           'SWITCH, AND, OR, XOR, NOT, IFERROR, IFNA), information (IS... family, ISODD, ISEVEN), aggregation (SUM, PRODUCT, SUMSQ, '
-          'AVERAGE, MIN, MAX, COUNT, COUNTA, COUNTBLANK, MEDIAN, VAR/STDEV families, LARGE, SMALL), element-wise mathematics (ABS, '
+          'SUMPRODUCT (referenced arrays and typed numbers; directly typed text / logicals are outside the generated domain), AVERAGE, MIN, MAX, COUNT, COUNTA, COUNTBLANK, MEDIAN, VAR/STDEV families, LARGE, SMALL), element-wise mathematics (ABS, '
           'INT, SIGN, SQRT, EXP, LN, LOG, LOG10, POWER, MOD, ROUND, ROUNDUP, ROUNDDOWN, TRUNC, CEILING, FLOOR, EVEN, ODD, '
           'trigonometry; rounding on the exact decimal of the shortest text of the double) and text (LEN, LEFT, RIGHT, MID, UPPER, '
           'LOWER, TRIM, CONCAT, CONCATENATE, FIND, SEARCH, REPLACE, SUBSTITUTE, TEXTJOIN, VALUE). Theorems (XL.Props.C12): '
